@@ -3,7 +3,7 @@
      key-value      |-> a map holding the registered integer of each named member, in description order
      command tuple  |-> code, argument  (a sequence of them is one flat array)
      bstr .cbor X   |-> exactly one byte string around the encoding of X
-     tuple          |-> array in field order;  tag |-> tag;  bitfield |-> the sum of the named bits;  enum |-> its integer
+     tuple          |-> array in field order;  tag |-> tag;  bitfield |-> the union (bitwise or) of the named bits;  enum |-> its integer
      union          |-> the first alternative that accepts the description
    Classes whose value comes from outside the description (UUIDs from names, digests and sizes from files, payload
    files, version strings, raw encryption info) are delegated to the object model: they are the subject of C05 / C13 / C20. *)
@@ -188,7 +188,7 @@ Section Spec.
             (fix go (l : list cbor) (acc : Z) : res cbor :=
                match l with
                | [] => Ok (cint acc)
-               | x :: r => let* c := rec bt x in match as_pyint c with Some n => go r (acc + n) | None => Raise TypeError end
+               | x :: r => let* c := rec bt x in match as_pyint c with Some n => go r (Z.lor acc n) | None => Raise TypeError end
                end) items 0
         | _ => Raise ValueError
         end
